@@ -33,6 +33,7 @@ import (
 	"context"
 	"flag"
 	"fmt"
+	"github.com/risor-io/risor/vm"
 	"math"
 	"math/rand"
 	"os"
@@ -828,7 +829,7 @@ func handle(req N) (resp N) {
 		resp["back"] = goTree(dst.Elem().Field(0))
 		return resp
 
-	case "global", "global_ov", "field_read", "field_write", "nested_write":
+	case "global", "global_ov", "global_again", "field_read", "field_write", "nested_write":
 		rt, err := rtype(chain)
 		if err != nil {
 			return bad(err)
@@ -860,6 +861,27 @@ func handle(req N) (resp N) {
 			cancel()
 			if err != nil {
 				return fail(err)
+			}
+			phase = "project"
+			resp["k"] = "ok"
+			resp["script"] = scriptTree(res, 12)
+			phase = "back"
+			convertBack(rt, res, resp)
+		case "global_again":
+			// one VM, two evaluations, the same Go value as the global x both times
+			phase = "eval"
+			machine, err := vm.NewEmpty()
+			if err != nil {
+				return bad(err)
+			}
+			var res object.Object
+			for round := 0; round < 2; round++ {
+				ctx, cancel := context.WithTimeout(context.Background(), 5*time.Second)
+				res, err = risor.Eval(ctx, "x", risor.WithoutDefaultGlobals(), risor.WithGlobals(map[string]any{"x": v.Interface()}), risor.WithVM(machine))
+				cancel()
+				if err != nil {
+					return fail(err)
+				}
 			}
 			phase = "project"
 			resp["k"] = "ok"
